@@ -6,6 +6,12 @@ from .c11 import (fr, item_aff, compose, chain_aff, chain_flip, chain_dims_ok, s
                   ref_walk, dyadic_point, real_apply, sfr, saff)
 
 
+def real_apply_exact(chain, x):
+    """exact image of a rational point under a chain (Fractions)"""
+    A = chain_aff(chain, len(x))
+    return [sum(A[0][i][j] * x[j] for j in range(A[3])) + A[1][i] for i in range(A[2])]
+
+
 def outcome(f, *a):
     """run real code; exceptions are outcomes"""
     try:
@@ -503,6 +509,210 @@ class Streams:
 
     def real_only(self):
         self.known_tensor4d()
+        self.interning()
+        self.findex_fcoords()
+        self.interface_sides()
+        self.locate()
+
+    # -------------------------------------------------------------- stream R4: interning (lookup uses object identity)
+    def interning(self):
+        """equal transform items met on different construction routes must be the same object"""
+        ids = {}
+        bad = 0
+        for label, ts, refs in getattr(self, 'seqs', []):
+            n = len(ts)
+            for i in (range(n) if n <= 30 else self.rng.sample(range(n), 30)):
+                for t in ts[i]:
+                    try: k = ser_item(t)
+                    except Unsupported: continue
+                    self.tick('explore:interning')
+                    if ids.setdefault(k, t) is not t:
+                        bad += 1
+                        self.fail('explore:interning', 'equal-items-not-identical', 'two distinct objects for the transform item %s (%r): identity based lookup breaks' % (k, t), dict(item=k, label=label))
+        self.c.count('interned-items', len(ids))
+
+    # -------------------------------------------------------------- stream R1: element index and local coordinates
+    def pairs_for_findex(self):
+        """(label, base topology, sampled topology): base.f_index / f_coords evaluated on a sample of the other"""
+        from nutils import mesh
+        rng = self.rng
+        out = []
+        def safe(f):
+            try: return f()
+            except Exception as e:
+                self.c.count('findex-skipped:' + type(e).__name__); return None
+        bases = [('rect[2,3]', lambda: mesh.rectilinear([2, 3])[0]), ('rect[2]', lambda: mesh.rectilinear([2])[0]), ('rect[1,2,2]', lambda: mesh.rectilinear([1, 2, 2])[0]),
+                 ('tri', lambda: mesh.unitsquare(2, 'triangle')[0]), ('mixed', lambda: mesh.unitsquare(2, 'mixed')[0]),
+                 ('rect[3,2]p0', lambda: mesh.rectilinear([3, 2], periodic=[0])[0])]
+        nodes = numpy.array([[0, 1, 2, 3], [1, 2, 3, 4]]); coords = numpy.array([[0, 0, 0], [1, 0, 0], [0, 1, 0], [0, 0, 1], [1, 1, 1.]])
+        bases.append(('tets', lambda: mesh.simplex(nodes, nodes, coords, {}, {}, {})[0]))
+        for label, f in (bases if not self.quick else rng.sample(bases, 4)):
+            t = safe(f)
+            if t is None: continue
+            n = len(t)
+            cands = [('self', lambda: t), ('refined', lambda: t.refined), ('boundary', lambda: t.boundary), ('interfaces', lambda: t.interfaces),
+                     ('refined.boundary', lambda: t.refined.boundary), ('boundary.refined', lambda: t.boundary.refined), ('refined.refined', lambda: t.refined.refined),
+                     ('take', lambda: t.take(sorted(rng.sample(range(n), max(1, n // 2))))), ('refined_by', lambda: t.refined_by(rng.sample(range(n), 1))),
+                     ('refined_by.boundary', lambda: t.refined_by(rng.sample(range(n), 1)).boundary), ('refined.interfaces', lambda: t.refined.interfaces)]
+            for l2, g in (cands if not self.quick else rng.sample(cands, 5)):
+                u = safe(g)
+                if u is not None and len(u): out.append((label + ':' + l2, t, u))
+            # the hierarchical topology as base, its refinement sampled
+            h = safe(lambda: t.refined_by(rng.sample(range(n), 1)))
+            if h is not None:
+                out.append((label + ':hier/refined', h, h.refined))
+                hb = safe(lambda: h.boundary)
+                if hb is not None: out.append((label + ':hier/boundary', h, hb))
+        return out
+
+    def findex_fcoords(self):
+        from nutils import transform as T
+        for label, base, topo in self.pairs_for_findex():
+            ob = 'explore:f_index-f_coords'
+            try:
+                smp = topo.sample('bezier', 2)
+                fi, fc = smp.eval([base.f_index, base.f_coords])
+            except Exception as e:
+                self.fail(ob, 'findex-eval-raises', 'sample.eval([f_index, f_coords]) of %s raises %s: %s' % (label, type(e).__name__, str(e)[:200]), dict(label=label)); continue
+            for ielem in range(smp.nelems):
+                self.tick(ob); self.c.case(('findex', label, ielem), nontrivial=True)
+                pts = numpy.asarray(smp.points[ielem].coords)
+                idx = smp.getindex(ielem)
+                chain = topo.transforms[ielem]
+                # oracle: exact recomputation; the element of `base` that contains the chain, remainder applied to the sample's own points
+                found = None
+                for j in range(len(base)):
+                    bj = tuple(base.transforms[j])
+                    if tuple(chain[:len(bj)]) == bj: found = j; break
+                replay = dict(label=label, element=ielem, chain=repr(chain))
+                if base is topo:
+                    want_i, want_c = ielem, [[fr(v) for v in p] for p in pts]
+                elif found is not None:
+                    tail = tuple(chain[len(base.transforms[found]):])
+                    want_i = found
+                    want_c = [real_apply_exact(tail, [fr(v) for v in p]) for p in pts]
+                else:
+                    self.c.count('findex:no-syntactic-prefix'); continue   # e.g. chains rewritten by promote: covered by the lookup streams
+                got_i = [int(v) for v in fi[idx]]
+                got_c = [[fr(v) for v in p] for p in fc[idx]]
+                if got_i != [want_i] * len(idx):
+                    self.fail(ob, 'f_index-wrong', 'f_index of %s evaluates to %r on element %d (expected %d)' % (label, got_i, ielem, want_i), dict(replay, got=got_i, want=want_i)); break
+                if got_c != want_c:
+                    self.fail(ob, 'f_coords-wrong', 'f_coords of %s on element %d differ from the (transformed) points of the sample' % (label, ielem), dict(replay, got=repr(got_c), want=repr(want_c))); break
+                self.c.traces += 1
+            self.c.count('findex-pairs')
+
+    # -------------------------------------------------------------- stream R2: both sides of an interface
+    def interface_sides(self):
+        from nutils import mesh, function
+        rng = self.rng
+        ob = 'explore:interface-sides'
+        cases = [('rect[2,3]', lambda: mesh.rectilinear([2, 3])), ('rect[3]', lambda: mesh.rectilinear([3])), ('rect[2,1,2]', lambda: mesh.rectilinear([2, 1, 2])),
+                 ('tri', lambda: mesh.unitsquare(2, 'triangle')), ('mixed', lambda: mesh.unitsquare(2, 'mixed')), ('square', lambda: mesh.unitsquare(2, 'square'))]
+        nodes = numpy.array([[0, 1, 2, 3], [1, 2, 3, 4]]); coords = numpy.array([[0, 0, 0], [1, 0, 0], [0, 1, 0], [0, 0, 1], [1, 1, 1.]])
+        cases.append(('tets', lambda: mesh.simplex(nodes, nodes, coords, {}, {}, {})))
+        for label, f in cases:
+            topo, geom = f()
+            n = len(topo)
+            variants = [('interfaces', lambda: topo.interfaces), ('refined.interfaces', lambda: topo.refined.interfaces), ('interfaces.refined', lambda: topo.interfaces.refined),
+                        ('refined_by.interfaces', lambda: topo.refined_by(rng.sample(range(n), 1)).interfaces), ('refined.refined.interfaces', lambda: topo.refined.refined.interfaces)]
+            for l2, g in (variants if not self.quick else rng.sample(variants, 2)):
+                try:
+                    ifc = g()
+                    if not len(ifc): continue
+                    smp = ifc.sample('bezier', 2)
+                    x, xo, j = smp.eval([geom, function.opposite(geom), function.jump(geom)])
+                except Exception as e:
+                    self.c.count('interfaces-skipped:' + type(e).__name__); continue
+                self.tick(ob); self.c.case(('ifc', label, l2), nontrivial=True); self.c.count('interface-points', len(x))
+                # exact: geometry is affine with dyadic data, points dyadic
+                if not (numpy.array_equal(x, xo) and not j.any()):
+                    k = int(numpy.argmax(numpy.abs(x - xo).sum(axis=-1) if x.ndim > 1 else numpy.abs(x - xo)))
+                    self.fail(ob, 'interface-sides-disagree', 'the two sides of an interface of %s.%s map a shared point to different locations: %r vs %r' % (label, l2, x[k], xo[k]),
+                              dict(label=label, variant=l2, point=k, x=repr(x[k]), xo=repr(xo[k])))
+                else:
+                    self.c.traces += 1
+
+    # -------------------------------------------------------------- stream R3: locate
+    def locate(self):
+        from nutils import mesh, function
+        from nutils.topology import LocateError
+        rng = self.rng
+        ob = 'explore:locate'
+        def geoms(topo, geom):
+            yield 'affine', geom, lambda x: x
+            yield 'scaled', geom * 2 - 1, lambda x: (x + 1) / 2
+            # monotone nonlinear map per coordinate: forces the Newton path
+            yield 'nonlinear', geom + geom**2 / 8, None
+        cases = [('rect[3,2]', lambda: mesh.rectilinear([3, 2]), [3, 2]), ('rect[4]', lambda: mesh.rectilinear([4]), [4]), ('rect[2,2,2]', lambda: mesh.rectilinear([2, 2, 2]), [2, 2, 2]),
+                 ('tri', lambda: mesh.unitsquare(2, 'triangle'), [1, 1]), ('mixed', lambda: mesh.unitsquare(2, 'mixed'), [1, 1])]
+        for label, f, size in (cases if not self.quick else rng.sample(cases, 3)):
+            topo, geom = f()
+            nd = topo.ndims
+            variants = [('full', topo)]
+            try: variants.append(('refined', topo.refined))
+            except Exception: pass
+            try:
+                keep = sorted(rng.sample(range(len(topo)), max(1, len(topo) - 1)))
+                variants.append(('subset', topo.subset(topo.take(keep)) if hasattr(topo, 'subset') else topo.take(keep)))
+            except Exception as e:
+                self.c.count('locate-variant-skipped:' + type(e).__name__)
+            for vname, t in variants:
+                for gname, g, inv in geoms(t, geom):
+                    npts = rng.randint(1, 6)
+                    # targets: images of dyadic parametric points, some of them outside
+                    par = [[Fraction(rng.randrange(0, 16 * s + 1), 16) for s in size] for _ in range(npts)]
+                    outside = rng.random() < .3
+                    if outside:
+                        par[rng.randrange(npts)] = [Fraction(-3) - Fraction(rng.randrange(1, 16), 16) for s in size]
+                    P = numpy.array([[float(v) for v in p] for p in par])
+                    target = dict(affine=P, scaled=P * 2 - 1, nonlinear=P + P**2 / 8)[gname]
+                    tol = rng.choice([1e-10, 1e-6, 1e-3])
+                    skip = rng.random() < .3
+                    kw = dict(tol=tol) if rng.random() < .7 else dict(eps=tol)
+                    self.tick(ob); self.c.case(('locate', label, vname, gname, repr(par), repr(kw), skip), nontrivial=True)
+                    replay = dict(label=label, variant=vname, geom=gname, targets=target.tolist(), kw=repr(kw), skip_missing=skip)
+                    try:
+                        smp = t.locate(g, target, skip_missing=skip, **kw)
+                        res = ('ok', numpy.asarray(smp.eval(g)), numpy.asarray(smp.eval(t.f_index)))
+                    except LocateError as e:
+                        res = ('locate-error', str(e))
+                    except Exception as e:
+                        res = ('exc', type(e).__name__ + ': ' + str(e)[:200])
+                    self.c.count('locate:%s:%s' % (gname, res[0]))
+                    # which targets are inside the located topology (exact, parametric)?
+                    def inside(p):
+                        if not all(0 <= v <= s for v, s in zip(p, size)): return False
+                        if vname != 'subset': return True
+                        return None   # point may sit in the removed element: undecided here
+                    ins = [inside(p) for p in par]
+                    if res[0] == 'exc':
+                        self.fail(ob, 'locate-raises-other', 'locate raises %s' % res[1], replay); continue
+                    if res[0] == 'locate-error':
+                        if all(i is True for i in ins):
+                            self.fail(ob, 'locate-error-for-inside-points', 'locate raises LocateError although every target lies inside the topology', replay)
+                        continue
+                    x = res[1]
+                    if skip:
+                        # the found points are a subsequence of the targets, in input order, each within tolerance
+                        k = 0; okseq = True; missed_inside = False
+                        for row, i_ in zip(target, ins):
+                            if k < len(x) and numpy.abs(x[k] - row).max() <= self.loc_tol(kw, gname): k += 1
+                            elif i_ is True: missed_inside = True
+                        if k != len(x) or missed_inside:
+                            self.fail(ob, 'locate-skip-missing-wrong', 'locate(skip_missing=True) returns points that are not the in-order subsequence of located targets', dict(replay, got=x.tolist()))
+                        else: self.c.traces += 1
+                        continue
+                    if any(i is False for i in ins):
+                        self.fail(ob, 'locate-accepts-outside-point', 'locate returns a sample although a target lies outside the topology', dict(replay, got=x.tolist())); continue
+                    if x.shape != target.shape or numpy.abs(x - target).max() > self.loc_tol(kw, gname):
+                        self.fail(ob, 'locate-wrong-points', 'locate returns points whose images are not the targets in input order within tolerance', dict(replay, got=x.tolist())); continue
+                    self.c.traces += 1
+
+    @staticmethod
+    def loc_tol(kw, gname):
+        # eps is a tolerance in element coordinates: the geometry maps used here stretch by less than 4
+        return kw['tol'] if 'tol' in kw else kw['eps'] * 4
 
     # -------------------------------------------------------------- corpus: the recorded 4-D defect
     def known_tensor4d(self):
